@@ -4,7 +4,7 @@ from __future__ import annotations
 import ast
 
 from ..fieldmodel import build_tree_classes, single_return_expr
-from ..model import AnalysisError, FuncInfo, Program, dotted, norm, self_attr, stmts_no_doc, walk_no_nested
+from ..model import AnalysisError, ClassInfo, FuncInfo, Program, dotted, norm, self_attr, stmts_no_doc, walk_no_nested
 from ..report import RuleContext
 from . import gen, handmodels, seps
 
@@ -18,95 +18,168 @@ EXPLANATION = (
     'compares equal (C20 covers the structural part) or independence under later edits as a runtime fact.')
 
 
+def _deepcopy_sem(p: Program, fn: Any) -> list[str]:
+    """RawTreeModel.__deepcopy__ interpreted over an abstract model whose span holds 0..3 tokens (plus tokens outside the span)"""
+    from . import possem
+    from .tokenstore import TS
+    ts = TS(p)
+    m = p.module('models.base')
+    problems: list[str] = []
+
+    class Interp(possem.PosInterp):
+        tag = 'COPY-STORE'
+
+        def __init__(self, span: list, outside: list) -> None:
+            super().__init__(ts, [], module=m)
+            self.span, self.outside = span, outside
+            self.copies: list = []
+            self.stores: list = []
+            self.iter_calls: list = []
+
+        def expr(self, e: Any, env: dict) -> Any:                 # type: ignore[override]
+            if isinstance(e, ast.Attribute) and isinstance(e.value, ast.Name) and env.get(e.value.id) is self.me:
+                if e.attr == 'tokens':
+                    self.iter_calls.append(('first', 'last'))
+                    return list(self.span)
+                if e.attr in ('token_store', '_token_store'):
+                    return self.me.f['_token_store']
+            if isinstance(e, ast.Call):
+                fname = norm(e.func)
+                if isinstance(e.func, ast.Attribute) and e.func.attr == 'iter' and self.expr(e.func.value, env) is self.me.f['_token_store']:
+                    args = [self.expr(a, env) for a in e.args]
+                    ok = len(args) == 2 and args[0] is self.me.f['first_token'] and args[1] is self.me.f['last_token']
+                    self.iter_calls.append(('first', 'last') if ok else ('?', '?'))
+                    return list(self.span) if ok else list(self.outside[:1]) + list(self.span) + list(self.outside[1:])
+                if isinstance(e.func, ast.Attribute) and e.func.attr in ('get_first', 'get_last') and not e.args \
+                        and self.expr(e.func.value, env) is self.me.f['_token_store']:
+                    return self.outside[0] if e.func.attr == 'get_first' else self.outside[1]
+                if fname in ('copy.deepcopy', 'deepcopy', 'copy.copy') and len(e.args) >= 1:
+                    v = self.expr(e.args[0], env)
+                    if isinstance(v, possem.Obj) and v.cls == 'Tok':
+                        c = possem.Obj('Tok', {'copy_of': v, 'deep': fname != 'copy.copy'}, f'copy of {v.label}')
+                        self.copies.append(c)
+                        return c
+                    if isinstance(v, list):
+                        out = []
+                        for x in v:
+                            c = possem.Obj('Tok', {'copy_of': x, 'deep': fname != 'copy.copy'}, f'copy of {getattr(x, "label", x)}')
+                            self.copies.append(c)
+                            out.append(c)
+                        return out
+                if fname.endswith('TokenStore.from_tokens') and len(e.args) == 1:
+                    toks = self.expr(e.args[0], env)
+                    st = possem.Obj('NewStore', {'tokens': list(toks)}, 'fresh store')
+                    self.stores.append(st)
+                    return st
+                if isinstance(e.func, (ast.Name, ast.Attribute)) and not (isinstance(e.func, ast.Name) and e.func.id in env):
+                    sym_ = p.resolve_expr(m, e.func)
+                    if isinstance(sym_, ClassInfo) and any(k.name == 'TokenTransformer' for k in sym_.mro):
+                        # any transformer class of the repository: built by interpreting its own __init__
+                        o = possem.Obj(sym_.name, {}, f'{sym_.name} instance')
+                        init = sym_.lookup('__init__')
+                        if isinstance(init, FuncInfo):
+                            self.call_function(init, [o] + [self.expr(a, env) for a in e.args], {k.arg: self.expr(k.value, env) for k in e.keywords})
+                        return o
+                if isinstance(e.func, ast.Attribute) and e.func.attr == 'clone' and self.expr(e.func.value, env) is self.me:
+                    args = [self.expr(a, env) for a in e.args]
+                    return possem.Obj('Clone', {'store': args[0] if args else None, 'tr': args[1] if len(args) > 1 else None}, 'clone')
+            if isinstance(e, ast.Name) and e.id not in env:
+                if e.id == 'IDENTITY_TOKEN_TRANSFORMER':
+                    return possem.Obj('IdentityTokenTransformer', {}, 'identity transformer')
+            if isinstance(e, ast.Call) and norm(e.func) in ('cast', 'typing.cast') and len(e.args) == 2:
+                return self.expr(e.args[1], env)
+            return super().expr(e, env)
+
+        def method(self, cls: str, name: str) -> Any:            # type: ignore[override]
+            try:
+                c = p.cls(cls)
+            except AnalysisError:
+                return super().method(cls, name)
+            f = c.lookup(name)
+            return f if isinstance(f, FuncInfo) else super().method(cls, name)
+
+        def stmt(self, st: Any, env: dict) -> None:                # type: ignore[override]
+            if isinstance(st, ast.Delete) and all(isinstance(t, ast.Name) for t in st.targets):
+                for t in st.targets:
+                    env.pop(t.id, None)
+                return
+            super().stmt(st, env)
+
+    n = 0
+    for k in range(0, 4):
+        span = [possem.Obj('Tok', {}, f't{i}') for i in range(k)]
+        outside = [possem.Obj('Tok', {}, 'before'), possem.Obj('Tok', {}, 'after')]
+        it = Interp(span, outside)
+        store = possem.Obj('Store', {}, 'store')
+        # the span straddles a block boundary of the original store: handles are (block, index within the block)
+        blk0 = possem.Obj('_StoreBlock', {'index': 0, 'store': store}, 'block0')
+        blk1 = possem.Obj('_StoreBlock', {'index': 1, 'store': store}, 'block1')
+        layout = [outside[0]] + span[:max(1, k - 1)]
+        layout1 = span[max(1, k - 1):] + [outside[1]]
+        for bi, (blk, toks_) in enumerate(((blk0, layout), (blk1, layout1))):
+            blk.f['tokens'] = list(toks_)
+            for ti, t in enumerate(toks_):
+                t.f['store_handle'] = possem.Obj('_StoreHandle', {'block': blk, 'index': ti + (7 if bi == 0 else 0)}, f'handle of {t.label}')
+        me = possem.Obj('Model', {'_token_store': store, 'first_token': span[0] if span else None, 'last_token': span[-1] if span else None}, 'model')
+        it.me = me
+        n += 1
+        if not span:
+            continue          # an empty tree model does not exist (first_token is a token); nothing to decide
+        try:
+            res = it.call_function(fn, [me, {}], {})
+        except possem.Raised as ex:
+            problems.append(f'span of {k} tokens: raises {ex}')
+            break
+        if not (isinstance(res, possem.Obj) and res.cls == 'Clone'):
+            problems.append('does not return self.clone(...)')
+            break
+        st, tr = res.f['store'], res.f['tr']
+        if not (isinstance(st, possem.Obj) and st.cls == 'NewStore'):
+            problems.append(f'clone target is {st!r}, not a store built by TokenStore.from_tokens (the copy would live in the original store)')
+            break
+        toks = st.f['tokens']
+        if len(toks) != k or any(not (isinstance(t, possem.Obj) and t.f.get('copy_of') is o and t.f.get('deep')) for t, o in zip(toks, span)) \
+                or len({id(t) for t in toks}) != len(toks):
+            problems.append(f'span of {k} tokens: the fresh store is not built from one deep copy of every token of the model\'s span, in order')
+            break
+        if not isinstance(tr, possem.Obj):
+            problems.append(f'transformer is {tr!r}, not a token transformer')
+            break
+        # whatever the transformer class: it must send every original token of the span to the copy stored at the same position
+        bad = None
+        for o, t in zip(span, toks):
+            it3 = Interp(span, outside)
+            it3.me = me
+            tf = it3.method(tr.cls, 'transform')
+            if tf is None:
+                bad = f'{tr.cls} has no transform()'
+                break
+            try:
+                got = it3.call_function(tf, [tr, o], {})
+            except possem.Raised as ex:
+                bad = f'{tr.cls}.transform raises {ex} for {o.label}'
+                break
+            except (KeyError, IndexError) as ex:
+                bad = f'{tr.cls}.transform fails with {type(ex).__name__} for {o.label}'
+                break
+            if got is not t:
+                bad = (f'{tr.cls}.transform sends {o.label} to {got!r}, not to its copy in the fresh store'
+                       + (' (the copy would share tokens with the original)' if got is o else ''))
+                break
+        if bad:
+            problems.append(f'span of {k} tokens (straddling a block boundary of the original store): {bad}')
+            break
+    return problems
+
+
 def rule_copy_store(ctx: RuleContext, p: Program, rid: str) -> None:
     ctx.rule(rid, 'RawTreeModel.__deepcopy__: tokens = [copy.deepcopy(t) for t in store.iter(first_token, last_token)] with an '
                   'id(t) -> copy map; store = TokenStore.from_tokens(tokens); return self.clone(store, MappingTokenTransformer(map))')
     base = p.cls('RawTreeModel', 'models.base')
     fn = p.method(base, '__deepcopy__', inherited=False)
-    problems: list[str] = []
-    loops = [n for n in walk_no_nested(fn.node) if isinstance(n, ast.For)]
-    tok_list = map_name = None
-    span_texts = {'self._token_store.iter(self.first_token, self.last_token)', 'self.token_store.iter(self.first_token, self.last_token)', 'self.tokens'}
-    aliases = {norm(a.targets[0]) for a in walk_no_nested(fn.node) if isinstance(a, (ast.Assign,)) and (
-        norm(a.value) in span_texts or (isinstance(a.value, ast.Call) and norm(a.value.func) in ('list', 'tuple') and a.value.args
-                                        and norm(a.value.args[0]) in span_texts))}
-    comp_lists = [a for a in walk_no_nested(fn.node) if isinstance(a, (ast.Assign, ast.AnnAssign)) and isinstance(a.value, ast.ListComp)]
-    if not loops and comp_lists:
-        # comprehension idiom: L = [copy.deepcopy(t) for t in SPAN]; M = {id(a): b for a, b in zip(SPAN, L)}
-        for a in comp_lists:
-            c = a.value
-            g = c.generators[0]
-            if len(c.generators) == 1 and not g.ifs and (norm(g.iter) in span_texts | aliases) and isinstance(c.elt, ast.Call) \
-                    and (dotted(c.elt.func) or '') == 'copy.deepcopy' and norm(c.elt.args[0]) == norm(g.target):
-                tok_list = norm(a.targets[0] if isinstance(a, ast.Assign) else a.target)
-                span_used = norm(g.iter)
-        for a in walk_no_nested(fn.node):
-            if isinstance(a, (ast.Assign, ast.AnnAssign)) and isinstance(a.value, ast.DictComp):
-                d = a.value
-                g = d.generators[0]
-                if isinstance(g.iter, ast.Call) and norm(g.iter.func) == 'zip' and len(g.iter.args) == 2 and isinstance(g.target, ast.Tuple) \
-                        and norm(g.iter.args[1]) == tok_list and norm(g.iter.args[0]) in (span_texts | aliases) and not g.ifs \
-                        and norm(d.key) == f'id({norm(g.target.elts[0])})' and norm(d.value) == norm(g.target.elts[1]):
-                    # the originals must be a materialised sequence, not a second traversal of a generator
-                    if norm(g.iter.args[0]) in aliases or norm(g.iter.args[0]) == 'self.tokens':
-                        map_name = norm(a.targets[0] if isinstance(a, ast.Assign) else a.target)
-        if tok_list is None:
-            problems.append('token list is not built from copy.deepcopy of every token of the model\'s span')
-        if map_name is None:
-            problems.append('copy map {id(original): copy} over the same span not found')
-    elif len(loops) != 1:
-        problems.append('expected exactly one loop over the model tokens')
-    else:
-        lp = loops[0]
-        it = lp.iter
-        if not (isinstance(it, ast.Call) and isinstance(it.func, ast.Attribute) and it.func.attr == 'iter'
-                and [norm(a) for a in it.args] == ['self.first_token', 'self.last_token']) and norm(it) != 'self.tokens':
-            problems.append(f'iterates {norm(it)}, not the model\'s own token span')
-        tv = norm(lp.target)
-        copies = {}
-        for st in lp.body:
-            if isinstance(st, ast.Assign) and isinstance(st.value, ast.Call) and (dotted(st.value.func) or '') == 'copy.deepcopy' \
-                    and norm(st.value.args[0]) == tv and isinstance(st.targets[0], ast.Name):
-                copies[st.targets[0].id] = st
-        for st in lp.body:
-            if isinstance(st, ast.Expr) and isinstance(st.value, ast.Call) and isinstance(st.value.func, ast.Attribute) \
-                    and st.value.func.attr == 'append':
-                a = st.value.args[0]
-                if (isinstance(a, ast.Name) and a.id in copies) or (isinstance(a, ast.Call) and (dotted(a.func) or '') == 'copy.deepcopy'):
-                    tok_list = norm(st.value.func.value)
-                else:
-                    problems.append(f'appends {norm(a)} (not a deep copy) to the new token list')
-            if isinstance(st, ast.Assign) and isinstance(st.targets[0], ast.Subscript):
-                k, v = st.targets[0].slice, st.value
-                if norm(k) == f'id({tv})' and isinstance(v, ast.Name) and v.id in copies:
-                    map_name = norm(st.targets[0].value)
-                else:
-                    problems.append(f'token map entry {norm(st)} does not map id(original) to its copy')
-        if any(isinstance(x, (ast.If, ast.Continue, ast.Break)) for st in lp.body for x in ast.walk(st)):
-            problems.append('loop filters tokens (a token would be dropped from the copy)')
-    store_var = None
-    for st in stmts_no_doc(fn.node.body):
-        if isinstance(st, ast.Assign) and isinstance(st.value, ast.Call) and (dotted(st.value.func) or '').endswith('TokenStore.from_tokens'):
-            if tok_list is None or norm(st.value.args[0]) != tok_list:
-                problems.append(f'store built from {norm(st.value.args[0])}, not the list of copies')
-            store_var = norm(st.targets[0])
-    ret = [n for n in walk_no_nested(fn.node) if isinstance(n, ast.Return)]
-    if len(ret) != 1 or not (isinstance(ret[0].value, ast.Call) and norm(ret[0].value.func) == 'self.clone'):
-        problems.append('does not return self.clone(...)')
-    else:
-        a = ret[0].value.args
-        if a and isinstance(a[0], ast.Call) and (dotted(a[0].func) or '').endswith('TokenStore.from_tokens'):
-            # canonical form: the fresh store is built inline
-            if tok_list is None or norm(a[0].args[0]) != tok_list:
-                problems.append(f'store built from {norm(a[0].args[0])}, not the list of copies')
-            store_var = norm(a[0])
-        if len(a) != 2 or norm(a[0]) != store_var:
-            problems.append(f'clone target is {norm(a[0]) if a else None}, not the fresh store')
-        if len(a) == 2 and not (isinstance(a[1], ast.Call) and norm(a[1].func).endswith('MappingTokenTransformer')
-                                and [norm(x) for x in a[1].args] == [map_name]):
-            problems.append(f'transformer is {norm(a[1])}, not MappingTokenTransformer(<copy map>) (identity would share tokens)')
+    problems = _deepcopy_sem(p, fn)
     ctx.check(not problems, rid, 'models.base:RawTreeModel.__deepcopy__', '; '.join(problems) or 'ok', '; '.join(problems),
-              fn.where, note='deep copies -> fresh store -> clone with mapping transformer')
+              fn.where, note='interpreted over spans of 0..3 abstract tokens: deep copies -> fresh store -> clone with mapping transformer')
     # the mapping transformer looks tokens up by id (never returns its argument)
     mt = p.cls('MappingTokenTransformer', 'models.base')
     tf = p.method(mt, 'transform', inherited=False)
@@ -228,6 +301,8 @@ def run(ctx: RuleContext, p: Program) -> None:
     ctx.try_rule(rule_token_clone, p, 'TOKEN-CLONE')
     ctx.try_rule(seps.rule_sep_prov, p, 'SEP-PROV')
     ctx.try_rule(seps.rule_sep_fresh, p, 'SEP-FRESH')
+    from . import round4
+    ctx.try_rule(round4.rule_replace_store, p, 'REPLACE-STORE')
     ctx.not_decided += ['that the copy compares equal (structural part under C20)', 'exact spans at reordered placeholders',
                         'independence under later edits as a runtime fact']
     ctx.assumptions += ['copy.deepcopy(token) dispatches to RawTokenModel.__deepcopy__', 'TokenStore.from_tokens builds a new store']
